@@ -297,6 +297,44 @@ class StreamSys(HSystem):
             ctx.eq('C06/%s/stream-history/%s' % (self.c, ev[0]), res, ('ok', o['exp']))
 
 
+class NonceSys(HSystem):
+    """one Salsa20 / ChaCha object used with several nonces whose written forms are related (1, 0x11, 11, 0x101: one is the
+    other followed by digits of a block index), messages that reach block 16 and beyond, and requests that are rejected
+    for a nonce of the wrong size carrying the same integer value as a valid one"""
+    depth = {'quick': 3, 'thorough': 4}
+    NONCES = [1, 0x11, 11, 0x101]
+    LENGTHS = [3, 17 * 64 + 1]
+
+    def __init__(self, c):
+        self.c = c
+        self.key = expander(32, 41)
+
+    def fresh(self):
+        return {'o': mk(self.c, self.key, 2)}
+
+    def canon(self, o):
+        from mc.engine import canon as gcanon
+        return gcanon(o['o'])
+
+    def events(self, o):
+        return [('enc', i, j) for i in range(len(self.NONCES)) for j in range(len(self.LENGTHS))] + \
+               [('rejected', i, sz) for i in range(len(self.NONCES)) for sz in (128, 32)]
+
+    def apply(self, o, ev):
+        from crysp.bits import Bits
+        v = self.NONCES[ev[1]]
+        if ev[0] == 'rejected':
+            return o['o'].enc(Bits(v, ev[2]), b'never encrypted')
+        return o['o'].enc(Bits(v, 64), expander(self.LENGTHS[ev[2]], 42))
+
+    def judge(self, ctx, hist, ev, res, o):
+        if ev[0] == 'rejected':
+            return          # a perturbation only: the statement fixes the nonce size but not what happens for another one
+        M = expander(self.LENGTHS[ev[2]], 42)
+        exp = RS.stream(blockf(self.c), self.key, struct.pack('<Q', self.NONCES[ev[1]]), 2, M)
+        ctx.eq('C06/%s/several-nonces-on-one-object' % self.c, res, ('ok', exp))
+
+
 class RC4Long(RC4Sys):
     """pieces longer than 64 KiB followed by further calls (depth 2)"""
     SIZES = (65537, 7)
@@ -308,6 +346,8 @@ class RC4Long(RC4Sys):
 
 def systems(tier):
     d = {'salsa20-stream': StreamSys('salsa20'), 'chacha-stream': StreamSys('chacha'), 'key5': RC4Sys(bytes.fromhex('0102030405')), 'key16': RC4Sys(expander(16, 9)), 'key7-long-pieces': RC4Long(b'seven77')}
+    d['salsa20-nonces'] = NonceSys('salsa20')
+    d['chacha-nonces'] = NonceSys('chacha')
     if tier == 'thorough':
         d['key1'] = RC4Sys(b'\x80')
         d['key256'] = RC4Sys(expander(256, 3))
@@ -334,7 +374,7 @@ def subchecks():
             bound='via the guarded hook: keystream started at block 2^32-2, 2^32-1, 2^32, 2^33-1, 2^48+5, 2^64-2; 4 (2) blocks vs reference with the 64-bit counter split over two words'),
         Sub('rc4-keys', pts_rc4keys, run_rc4keys, engine='P', bound='every key length 1..256 (ramp) + 3 patterns at {1,5,16,255,256}: key-schedule state, 40 bytes, dec(enc), empty message'),
         hsub('rc4-histories', systems, lambda tier: 3 if tier == 'quick' else 4,
-             bound='Salsa20 and ChaCha: one cipher object, one caller-owned nonce object overwritten in place, keystream generators held open across other requests, all sequences to depth 3 (4); one RC4 object; events enc(m) |m| in {0,1,2,3,255,256,257,600}, keystream(0/1/256), dec(5 bytes); all sequences to depth 3 for 2 keys (thorough 4 keys), deduplicated by (S,i,j); output = reference stream slice, state = reference state after the consumed total; one more key with a piece of 65537 bytes followed by further calls (depth 2)'),
+             bound='Salsa20 and ChaCha: one cipher object, one caller-owned nonce object overwritten in place, keystream generators held open across other requests, all sequences to depth 3 (4); one cipher object used with 4 nonces of related written forms (1, 0x11, 11, 0x101) on 3-byte and 18-block messages and with rejected nonces of 128 / 32 bits carrying the same values, depth 3 (4); one RC4 object; events enc(m) |m| in {0,1,2,3,255,256,257,600}, keystream(0/1/256), dec(5 bytes); all sequences to depth 3 for 2 keys (thorough 4 keys), deduplicated by (S,i,j); output = reference stream slice, state = reference state after the consumed total; one more key with a piece of 65537 bytes followed by further calls (depth 2)'),
     ]
 
 
